@@ -342,7 +342,7 @@ CHECKS['C10'].update({
                  "regex-text correspondence (K1) + re.compile and API exception search",
 })
 CHECKS['C18'].update({
-    'text': "C18walk: bytes = str for compileMatch / matchReal, globSplit, Glob.__init__ + the glob event sequence on Latin-1 trees (glob_bytes_eq_str), the three limit loops (naturality) and the WcMatch model (table congruence); D38 (normaliser type-dependent without RAWCHARS under Windows rules) found by this proof and repaired (cbce5f1). Theorems (Lean), on the faithful port of WcParse, for EVERY pattern string and EVERY configuration: bytes_str_twin — the bytes pass and "
+    'text': "C18walk: bytes = str for compileMatch / matchReal, globSplit, Glob.__init__ + the glob event sequence on Latin-1 trees (glob_bytes_eq_str), the three limit loops (naturality) and the WcMatch model (table congruence); D38 (normaliser type-dependent without RAWCHARS under Windows rules) found by this proof and repaired (cbce5f1); norm_noraw_type_blind — without RAWCHARS util.norm_pattern is type-blind for every text and flag word. Theorems (Lean), on the faithful port of WcParse, for EVERY pattern string and EVERY configuration: bytes_str_twin — the bytes pass and "
             "the str pass succeed or fail alike and emit regexes related by ReBytesTwin (equal except the full-range spelling of a class emptied by "
             "the reversed-range check: `\\x00-\\xff` vs `\\x00-\\U0010ffff`; POSIX items literally equal because the two tables agree, "
             "posix_tables_agree lifted to all names); bytes_str_same_matches — on every subject whose code units are < 256 the two regexes have "
